@@ -5,13 +5,14 @@ from __future__ import annotations
 import ast
 
 from gv import rules
+from gv.astutil import AnalysisError
+from gv.astutil import arg_or_kw
 from gv.astutil import compare_parts
 from gv.astutil import dotted
 from gv.astutil import last_attr
 from gv.astutil import names_in
 from gv.astutil import norm_stmt
 from gv.astutil import stmts_of
-from gv.astutil import unparse
 from gv.astutil import walk_body
 from gv.cfg import cfg_of
 from gv.props.shared import unfolded
@@ -42,6 +43,67 @@ describe(
 )
 
 
+def _alts(func: ast.AST, e: ast.AST) -> list[ast.AST]:
+    """The alternatives of an expression of ``func`` with its locals unfolded (the expression itself when the
+    analysis has nothing to say)."""
+    try:
+        out = unfolded(func, e)
+    except AnalysisError:
+        out = None
+    return list(out) if out else [e]
+
+
+_NEGATED = {ast.NotIn: ast.In, ast.NotEq: ast.Eq, ast.IsNot: ast.Is}
+
+
+def _positive(test: ast.AST, value: bool) -> tuple[ast.AST, bool]:
+    """(positive condition, outcome): ``not c`` / ``a not in b`` / ``a != b`` with outcome v is ``c`` / ``a in b`` /
+    ``a == b`` with outcome not v."""
+    while True:
+        if isinstance(test, ast.UnaryOp) and isinstance(test.op, ast.Not):
+            test, value = test.operand, not value
+            continue
+        cp = compare_parts(test)
+        if cp is not None and cp[1] in _NEGATED:
+            test = ast.copy_location(ast.Compare(left=cp[0], ops=[_NEGATED[cp[1]]()], comparators=[cp[2]]), test)
+            value = not value
+        return test, value
+
+
+def _couplings_missing(e: ast.AST, outcome: bool) -> bool:
+    """``e`` (locals unfolded) having the truth value ``outcome`` means: some coupling is not in the design space.
+
+    Spellings: ``C.issubset(D)`` / ``C <= D`` / ``D.issuperset(C)`` / ``D >= C`` false; ``C - D`` (the missing ones)
+    / ``len(C - D)`` / ``len(C - D) > 0`` true; ``len(C - D) == 0`` false."""
+    if isinstance(e, ast.Call) and dotted(e.func) == "len" and len(e.args) == 1 and not e.keywords:
+        return _couplings_missing(e.args[0], outcome)
+    if isinstance(e, ast.Call) and dotted(e.func) == "bool" and len(e.args) == 1 and not e.keywords:
+        return _couplings_missing(e.args[0], outcome)
+    cp = compare_parts(e)
+    if cp is not None and isinstance(cp[2], ast.Constant) and cp[2].value == 0 and isinstance(cp[0], ast.Call) and dotted(cp[0].func) == "len":
+        if cp[1] in (ast.Gt, ast.NotEq):
+            return _couplings_missing(cp[0], outcome)
+        if cp[1] is ast.Eq:
+            return _couplings_missing(cp[0], not outcome)
+        return False
+    sub = sup = None
+    if isinstance(e, ast.Call) and isinstance(e.func, ast.Attribute) and len(e.args) == 1 and not e.keywords and e.func.attr in ("issubset", "issuperset"):
+        sub, sup = (e.func.value, e.args[0]) if e.func.attr == "issubset" else (e.args[0], e.func.value)
+        want = False
+    elif cp is not None and cp[1] in (ast.LtE, ast.GtE):
+        sub, sup = (cp[0], cp[2]) if cp[1] is ast.LtE else (cp[2], cp[0])
+        want = False
+    elif isinstance(e, ast.BinOp) and isinstance(e.op, ast.Sub):
+        sub, sup = e.left, e.right
+        want = True
+    elif isinstance(e, ast.Call) and isinstance(e.func, ast.Attribute) and e.func.attr == "difference" and len(e.args) == 1 and not e.keywords:
+        sub, sup = e.func.value, e.args[0]
+        want = True
+    if sub is None or outcome is not want:
+        return False
+    return "all_couplings" in norm_stmt(sub) and "design_space" not in norm_stmt(sub) and "design_space" in norm_stmt(sup) and "all_couplings" not in norm_stmt(sup)
+
+
 def check_design_spaces(ctx: Ctx) -> None:
     f = ctx.index.method(MDF, "MDF", "__init__")
     con = cname(MDF, "MDF", "__init__")
@@ -58,13 +120,22 @@ def check_design_spaces(ctx: Ctx) -> None:
     ctx.ob("17.1-mdf", cname(MDF, "MDF", "_update_design_space"), ok, "MDF must remove the couplings from the design space (the MDA solves them): an optimiser would otherwise move variables that the MDA overwrites", node=(rc or [g])[0])
     h = ctx.index.method(MDF, "MDF", "_remove_couplings_from_ds")
     loops = [s for s in stmts_of(h) if isinstance(s, ast.For)]
-    ok = len(loops) == 1 and norm_stmt(loops[0].iter) == "self.mda.coupling_structure.all_couplings"
+    ok = len(loops) == 1 and all(norm_stmt(a_) == "self.mda.coupling_structure.all_couplings" for a_ in _alts(h, loops[0].iter))
     rm = [c for c in walk_body(h) if isinstance(c, ast.Call) and last_attr(c) == "remove_variable"]
     ch = cfg_of(h)
-    ok = ok and len(rm) == 1 and dotted(rm[0].args[0]) == dotted(loops[0].target)
+    ok = ok and len(rm) == 1 and len(rm[0].args) == 1 and dotted(rm[0].args[0]) == dotted(loops[0].target) and isinstance(rm[0].func, ast.Attribute)
     if ok:
-        conds = [(norm_stmt(ch.ast[t].test), v) for t, v in branch_conditions(ch, ch.node_of(rm[0])) if ch.kind[t] == "test"]
-        ok = conds == [(f"{dotted(loops[0].target)} in design_space", True)]
+        # the removal runs exactly under ``<coupling> in <design space>``, however the test is spelled (``if c in ds:
+        # remove`` or ``if c not in ds: continue``); the design space tested is the one the variable is removed from
+        conds = [_positive(ch.ast[t].test, v) for t, v in branch_conditions(ch, ch.node_of(rm[0])) if ch.kind[t] == "test"]
+        ok = len(conds) == 1 and conds[0][1] is True
+        if ok:
+            cp = compare_parts(conds[0][0])
+            ok = cp is not None and cp[1] is ast.In and dotted(cp[0]) == dotted(loops[0].target)
+            if ok:
+                tested = {norm_stmt(a_) for a_ in _alts(h, cp[2])}
+                removed_from = {norm_stmt(a_) for a_ in _alts(h, rm[0].func.value)}
+                ok = tested == removed_from and len(tested) == 1 and next(iter(tested)).endswith("optimization_problem.design_space")
     ctx.ob("17.1-mdf", cname(MDF, "MDF", "_remove_couplings_from_ds"), ok, "every coupling of the MDA that is in the design space must be removed from it", node=(rm or [h])[0])
     f = ctx.index.method(IDF, "IDF", "__init__")
     con = cname(IDF, "IDF", "__init__")
@@ -81,61 +152,193 @@ def check_design_spaces(ctx: Ctx) -> None:
     raises = [s for s in stmts_of(g) if isinstance(s, ast.Raise)]
     ok = len(raises) == 1
     if ok:
-        conds = [(cg.ast[t].test, v) for t, v in branch_conditions(cg, cg.node_of(raises[0])) if cg.kind[t] == "test"]
-        def _neg(c_):
-            t_, v_ = c_
-            return (t_.operand, not v_) if isinstance(t_, ast.UnaryOp) and isinstance(t_.op, ast.Not) else (t_, v_)
-        conds = [_neg(c_) for c_ in conds]
-        ok = len(conds) == 1 and conds[0][1] is False and isinstance(conds[0][0], ast.Call) and last_attr(conds[0][0]) == "issubset"
-        if ok:
-            sub = conds[0][0]
-            src = [s for s in stmts_of(g) if isinstance(s, ast.Assign) and dotted(s.targets[0]) == dotted(sub.func.value)]
-            dst = [s for s in stmts_of(g) if isinstance(s, ast.Assign) and dotted(s.targets[0]) == dotted(sub.args[0])]
-            ok = len(src) == 1 and "all_couplings" in norm_stmt(src[0].value) and len(dst) == 1 and "design_space" in norm_stmt(dst[0].value)
+        conds = [_positive(cg.ast[t].test, v) for t, v in branch_conditions(cg, cg.node_of(raises[0])) if cg.kind[t] == "test"]
+        ok = len(conds) == 1 and all(_couplings_missing(a_, conds[0][1]) for a_ in _alts(g, conds[0][0]))
     ctx.ob("17.1-idf", cname(IDF, "IDF", "_update_design_space"), ok, "IDF must refuse a design space that does not contain every coupling (they are its optimisation variables)", node=(raises or [g])[0])
+
+
+_FLAG = "__formulation.normalize_constraints"
+
+
+def _returned(f: ast.AST, normalized: bool) -> list[tuple[ast.Return, list[ast.AST]]]:
+    """(return statement, alternatives of the returned expression with the locals unfolded) for every value the function can return when
+    the normalisation flag of the formulation has the given value -- whatever the control structure that selects it
+    (early return, if/else, conditional expression, a result rescaled under the flag)."""
+    keys = {norm_stmt(n) for n in ast.walk(f) if isinstance(n, ast.Attribute) and norm_stmt(n).replace("_ConsistencyConstraint", "").endswith(_FLAG)}
+    facts = dict.fromkeys(keys, normalized)
+    out = []
+    for r in [s for s in stmts_of(f) if isinstance(s, ast.Return) and s.value is not None]:
+        try:
+            alts = unfolded(f, r, facts=facts, get=lambda r_: r_.value) if facts else None
+        except AnalysisError:
+            alts = None
+        if alts:
+            out.append((r, list(alts)))
+    return out
+
+
+def _plain(e: ast.AST) -> str:
+    return norm_stmt(e).replace("_ConsistencyConstraint", "")
+
+
+def _per_row(e: ast.AST) -> bool:
+    """``e`` is the vector of normalisation factors laid out as a column (one factor per ROW of the Jacobian):
+    ``f[:, newaxis]`` / ``f[:, None]`` / ``f.reshape(-1, 1)`` / ``f.reshape((-1, 1))``."""
+
+    def minus_one(x):
+        return isinstance(x, ast.UnaryOp) and isinstance(x.op, ast.USub) and isinstance(x.operand, ast.Constant) and x.operand.value == 1 or isinstance(x, ast.Constant) and x.value == -1
+
+    if isinstance(e, ast.Subscript) and _plain(e.value) == "self.__norm_fact" and isinstance(e.slice, ast.Tuple) and len(e.slice.elts) == 2:
+        rows, new = e.slice.elts
+        full = isinstance(rows, ast.Slice) and rows.lower is None and rows.upper is None and rows.step is None
+        axis = isinstance(new, ast.Constant) and new.value is None or (dotted(new) or "").split(".")[-1] == "newaxis"
+        return full and axis
+    if isinstance(e, ast.Call) and isinstance(e.func, ast.Attribute) and e.func.attr == "reshape" and _plain(e.func.value) == "self.__norm_fact" and not e.keywords:
+        shape = e.args[0].elts if len(e.args) == 1 and isinstance(e.args[0], ast.Tuple) else e.args
+        return len(shape) == 2 and minus_one(shape[0]) and isinstance(shape[1], ast.Constant) and shape[1].value == 1
+    return False
+
+
+def _is_target(ctx: Ctx, e: ast.AST, x: str) -> bool:
+    """``e`` is the part of the design vector ``x`` that holds the output couplings: ``formulation.mask_x_swap_order(
+    output couplings, x)`` or what that accessor returns, ``x[formulation.get_x_mask_x_swap_order(output couplings)]``
+    (all the data names left to their default: the design space)."""
+
+    def names_ok(call, extra):
+        n = arg_or_kw(call, 0, "masking_data_names")
+        a = arg_or_kw(call, extra, "all_data_names")
+        return n is not None and _plain(n) == "self.__output_couplings" and a is None and len(call.args) + len(call.keywords) == extra
+
+    if isinstance(e, ast.Call) and isinstance(e.func, ast.Attribute) and e.func.attr == "mask_x_swap_order" and _plain(e.func.value) == "self.__formulation":
+        v = arg_or_kw(e, 1, "x_vect")
+        return v is not None and dotted(v) == x and names_ok(e, 2)
+    if isinstance(e, ast.Subscript) and dotted(e.value) == x and isinstance(e.slice, ast.Call) and isinstance(e.slice.func, ast.Attribute) and e.slice.func.attr == "get_x_mask_x_swap_order" and _plain(e.slice.func.value) == "self.__formulation":
+        # only as long as mask_x_swap_order is that very accessor
+        m = ctx.index.method(BF, "BaseFormulation", "mask_x_swap_order")
+        ret = [s for s in stmts_of(m) if isinstance(s, ast.Return)]
+        acc = len(ret) == 1 and all(isinstance(a_, ast.Subscript) and dotted(a_.value) == "x_vect" and norm_stmt(a_.slice) == "self.get_x_mask_x_swap_order(masking_data_names, all_data_names)" for a_ in _alts(m, ret[0].value))
+        return acc and names_ok(e.slice, 1)
+    return False
 
 
 def check_constraint(ctx: Ctx) -> None:
     fv = ctx.index.method(CC, "ConsistencyConstraint", "_func_to_wrap")
     fj = ctx.index.method(CC, "ConsistencyConstraint", "_jac_to_wrap")
     conv, conj = cname(CC, "ConsistencyConstraint", "_func_to_wrap"), cname(CC, "ConsistencyConstraint", "_jac_to_wrap")
+    pv = {"normalized": _returned(fv, True), "plain": _returned(fv, False)}
+    pj = {"normalized": _returned(fj, True), "plain": _returned(fj, False)}
+    ctx.need(all(pv.values()) and all(pj.values()), "ConsistencyConstraint: the normalised/plain returns were not found")
+    xv, xj = fv.args.args[1].arg, fj.args.args[1].arg
 
-    def parts(f):
-        cfg = cfg_of(f)
-        out = {}
-        for r in [s for s in stmts_of(f) if isinstance(s, ast.Return)]:
-            conds = [(norm_stmt(cfg.ast[t].test).replace("_ConsistencyConstraint", ""), v) for t, v in branch_conditions(cfg, cfg.node_of(r)) if cfg.kind[t] == "test"]
-            key = "normalized" if ("self.__formulation.normalize_constraints", True) in conds else "plain"
-            out[key] = r
-        return out
+    def coupling(e, methods, x):
+        """(text of the coupling function) when ``e`` is ``<function>.<method>(x)``."""
+        if isinstance(e, ast.Call) and isinstance(e.func, ast.Attribute) and e.func.attr in methods and len(e.args) == 1 and not e.keywords and dotted(e.args[0]) == x:
+            return _plain(e.func.value)
+        return None
 
-    pv, pj = parts(fv), parts(fj)
-    ctx.need(set(pv) == set(pj) == {"normalized", "plain"}, "ConsistencyConstraint: the normalised/plain returns were not found")
+    def difference(e):
+        return (e.left, e.right) if isinstance(e, ast.BinOp) and isinstance(e.op, ast.Sub) else (None, None)
 
-    def diff(e):
-        while isinstance(e, ast.BinOp) and isinstance(e.op, ast.Div):
-            e = e.left
-        return e
+    # value: coupling(x) - target
+    funcs_v = set()
+    for r, alts in pv["plain"]:
+        d = [difference(e) for e in alts]
+        fns = [coupling(left, ("evaluate", "func"), xv) if left is not None else None for left, _ in d]
+        funcs_v |= set(fns)
+        ctx.ob("17.2-order", conv, None not in fns and all(coupling(right, ("evaluate", "func"), xv) is None for _, right in d), "the consistency constraint is coupling(x) - target", node=r)
+        ctx.ob("17.2-order", conv, all(right is not None and _is_target(ctx, right, xv) for _, right in d), "the target is the part of the design vector holding the output couplings", node=r, stmt="target = mask(output couplings, x)")
+    # Jacobian: d coupling - d target
+    funcs_j = set()
+    for r, alts in pj["plain"]:
+        d = [difference(e) for e in alts]
+        fns = [coupling(left, ("jac", "_jac"), xj) if left is not None else None for left, _ in d]
+        funcs_j |= set(fns)
+        ctx.ob("17.2-order", conj, None not in fns and all(coupling(right, ("jac", "_jac"), xj) is None for _, right in d), "the Jacobian of the consistency constraint must subtract in the same order as its value: d coupling - d target", node=r)
+    ok = None not in funcs_v and None not in funcs_j and len(funcs_v) == 1 and funcs_v == funcs_j
+    ctx.ob("17.2-order", conj, ok, "value and Jacobian must come from the same coupling function at the same point", node=pj["plain"][0][0], stmt="coupling function evaluated/differentiated at x_vect")
+    # scaling: the same differences, divided by the factor (value) / by the factor of each row (Jacobian)
+    for fn_con, p_, divisor, what in (
+        (conv, pv, lambda e: _plain(e) == "self.__norm_fact", "the normalised constraint divides the same difference by the normalisation factor"),
+        (conj, pj, _per_row, "the normalised Jacobian divides each row by the factor of its constraint component (norm_fact[:, newaxis]): without the new axis the factors scale the columns"),
+    ):
+        plain = {_plain(e) for _, alts in p_["plain"] for e in alts}
+        scaled = set()
+        for r, alts in p_["normalized"]:
+            ok = all(isinstance(e, ast.BinOp) and isinstance(e.op, ast.Div) and _plain(e.left) in plain and divisor(e.right) for e in alts)
+            scaled |= {_plain(e.left) for e in alts} if ok else set()
+            ctx.ob("17.2-scaling", fn_con, ok, what, node=r)
+        ctx.ob("17.2-scaling", fn_con, scaled == plain, "every difference returned without normalisation is returned divided by the factor with it", node=p_["normalized"][0][0], stmt="normalised and plain results are the same differences")
 
-    dv, dj = diff(pv["plain"].value), diff(pj["plain"].value)
-    okv = isinstance(dv, ast.BinOp) and isinstance(dv.op, ast.Sub) and dotted(dv.left) == "coupl" and dotted(dv.right) == "x_sw"
-    okj = isinstance(dj, ast.BinOp) and isinstance(dj.op, ast.Sub) and dotted(dj.left) == "coupl_jac" and dotted(dj.right) == "x_jac"
-    ctx.ob("17.2-order", conv, okv, "the consistency constraint is coupling(x) - target", node=pv["plain"])
-    ctx.ob("17.2-order", conj, okj, "the Jacobian of the consistency constraint must subtract in the same order as its value: d coupling - d target", node=pj["plain"])
-    for key in ("normalized",):
-        nv, nj = pv[key].value, pj[key].value
-        okv = isinstance(nv, ast.BinOp) and isinstance(nv.op, ast.Div) and norm_stmt(diff(nv)) == norm_stmt(dv) and norm_stmt(nv.right).replace("_ConsistencyConstraint", "") == "self.__norm_fact"
-        ctx.ob("17.2-scaling", conv, okv, "the normalised constraint divides the same difference by the normalisation factor", node=pv[key])
-        okj = isinstance(nj, ast.BinOp) and isinstance(nj.op, ast.Div) and norm_stmt(diff(nj)) == norm_stmt(dj) and isinstance(nj.right, ast.Subscript) and norm_stmt(nj.right.value).replace("_ConsistencyConstraint", "") == "self.__norm_fact" and "newaxis" in unparse(nj.right.slice)
-        ctx.ob("17.2-scaling", conj, okj, "the normalised Jacobian divides each row by the factor of its constraint component (norm_fact[:, newaxis]): without the new axis the factors scale the columns", node=pj[key])
-    # same functions evaluated at the same point
-    cv = [s for s in stmts_of(fv) if isinstance(s, ast.Assign) and dotted(s.targets[0]) == "coupl"]
-    cj = [s for s in stmts_of(fj) if isinstance(s, ast.Assign) and dotted(s.targets[0]) == "coupl_jac"]
-    ok = len(cv) == 1 and len(cj) == 1 and isinstance(cv[0].value, ast.Call) and isinstance(cj[0].value, ast.Call) and norm_stmt(cv[0].value.func.value) == norm_stmt(cj[0].value.func.value) and [norm_stmt(a) for a in cv[0].value.args] == [norm_stmt(a) for a in cj[0].value.args] and last_attr(cv[0].value) in ("evaluate", "func") and last_attr(cj[0].value) in ("jac", "_jac")
-    ctx.ob("17.2-order", conj, ok, "value and Jacobian must come from the same coupling function at the same point", node=(cj or [fj])[0], stmt="coupling function evaluated/differentiated at x_vect")
-    xs = [s for s in stmts_of(fv) if isinstance(s, ast.Assign) and dotted(s.targets[0]) == "x_sw"]
-    ok = len(xs) == 1 and last_attr(xs[0].value) == "mask_x_swap_order" and "__output_couplings" in norm_stmt(xs[0].value.args[0]) and dotted(xs[0].value.args[1]) == fv.args.args[1].arg
-    ctx.ob("17.2-order", conv, ok, "the target is the part of the design vector holding the output couplings", node=(xs or [fv])[0], stmt="target = mask(output couplings, x)")
+
+def _dv_len_of(e: ast.AST) -> str | None:
+    """The variable whose size ``e`` is (``self.__dv_len[<name>]``: the sizes of the design space)."""
+    if isinstance(e, ast.Subscript) and _plain(e.value) == "self.__dv_len":
+        return dotted(e.slice)
+    return None
+
+
+def _is_length_of(e: ast.AST, x: str) -> bool:
+    """``e`` is the number of components of the (one-dimensional) design vector ``x``."""
+    if isinstance(e, ast.Call) and dotted(e.func) == "len" and len(e.args) == 1 and not e.keywords:
+        return dotted(e.args[0]) == x
+    if isinstance(e, ast.Subscript) and dotted(e.value) == f"{x}.shape":
+        i = e.slice
+        return isinstance(i, ast.Constant) and i.value == 0 or norm_stmt(i) == "-1"
+    return dotted(e) == f"{x}.size"
+
+
+_OPTIM_NAMES = ("self.__formulation.get_optim_variable_names()", "self.__formulation.design_space.variable_names", "self.__formulation.optimization_problem.design_space.variable_names")
+
+
+def _check_jacobian_frame(ctx: Ctx, con: str, f: ast.AST, s: ast.Assign, names: ast.AST) -> None:
+    """The matrix receiving the identity blocks has one column per component of the design vector, and the columns
+    are enumerated (``names``) in the order of the optimisation variables of the design space."""
+    x = f.args.args[1].arg
+    z = [x_ for x_ in stmts_of(f) if isinstance(x_, ast.Assign) and isinstance(x_.value, ast.Call) and last_attr(x_.value) == "zeros" and dotted(x_.targets[0]) == dotted(s.targets[0].value)]
+    ok = len(z) == 1
+    if ok:
+        shape = arg_or_kw(z[0].value, 0, "shape")
+        ok = isinstance(shape, ast.Tuple) and len(shape.elts) == 2 and all(_is_length_of(a_, x) for a_ in _alts(f, shape.elts[1]))
+    ctx.ob("17.3-window", con, ok, "the target Jacobian has one column per component of the design vector", node=(z or [f])[0], stmt="zeros((n_outs, len(x_vect)))")
+    # get_optim_variable_names() is the accessor of design_space.variable_names (checked on BaseFormulation)
+    acc = ctx.index.method(BF, "BaseFormulation", "get_optim_variable_names")
+    ret = [r for r in stmts_of(acc) if isinstance(r, ast.Return)]
+    plain_accessor = len(ret) == 1 and all(norm_stmt(a_) == "self.optimization_problem.design_space.variable_names" for a_ in _alts(acc, ret[0].value))
+    allowed = _OPTIM_NAMES if plain_accessor else _OPTIM_NAMES[:1]
+    ok = all(_plain(a_) in allowed for a_ in _alts(f, names))
+    ctx.ob("17.3-window", con, ok, "columns follow the order of the optimisation variables of the design space", node=names, stmt="columns in design-space order")
+
+
+def _check_identity_block_by_lookup(ctx: Ctx, con: str, f: ast.AST, s: ast.Assign, loop: ast.For) -> None:
+    """The same facts when the columns of an output coupling are not found by scanning the design variables with a
+    running cursor but looked up in the table of windows that the formulation computes over the optimisation variables
+    (``formulation._get_dv_indices(names)[coupling]`` = (start, end, size), checked by 17.4 on BaseFormulation)."""
+    cfg = cfg_of(f)
+    ctx.need("__output_couplings" in norm_stmt(loop.iter) and isinstance(loop.target, ast.Name), "_jac_to_wrap: the loop over the output couplings was not found")
+    ov = loop.target.id
+    rows, cols = s.targets[0].slice.elts
+    looked = [u for u in stmts_of(f) if isinstance(u, ast.Assign) and isinstance(u.targets[0], ast.Tuple) and len(u.targets[0].elts) == 3 and isinstance(u.value, ast.Subscript) and any(u is x for x in ast.walk(loop)) and cfg.dominates(cfg.node_of(u), cfg.node_of(s))]
+    tables = []
+    ok = len(looked) == 1
+    if ok:
+        tables = _alts(f, looked[0].value.value)
+        ok = all(isinstance(t, ast.Call) and _plain(t.func) == "self.__formulation._get_dv_indices" and len(t.args) == 1 and not t.keywords for t in tables)
+    ctx.need(ok, "_jac_to_wrap: neither two nested loops (outputs, design variables) nor a lookup of the column windows were found")
+    lo, hi, n = (dotted(e) for e in looked[0].targets[0].elts)
+    unconditional = not [t for t, v in branch_conditions(cfg, cfg.node_of(s)) if cfg.kind[t] == "test" and any(sub is cfg.ast[t] for sub in ast.walk(loop))]
+    ok = dotted(looked[0].value.slice) == ov and unconditional
+    ctx.ob("17.3-same-name", con, ok, "the identity block belongs to the design variable that has the same name as the output coupling", node=s, stmt="column window looked up under the name of the output coupling")
+    same_name = ok
+    incs = {x.target.id for x in ast.walk(loop) if isinstance(x, ast.AugAssign) and isinstance(x.target, ast.Name)}
+    ok = bool(names_in(rows) & incs) and cols.step is None and lo is not None and hi is not None and lo != hi and dotted(cols.lower) == lo and dotted(cols.upper) == hi and not (names_in(rows) & {lo, hi, n})
+    ctx.ob("17.3-window", con, ok, "rows of the block are the window of the output coupling (outer cursor), columns the window of the design variable (inner cursor)", node=s, stmt="rows <- output cursor, columns <- design-variable cursor")
+    size = arg_or_kw(s.value, 0, "N") or arg_or_kw(s.value, 0, "n")
+    ok = size is not None and ((n is not None and dotted(size) == n) or all(_dv_len_of(e) == ov for e in _alts(f, size))) and same_name
+    ctx.ob("17.3-window", con, ok, "the identity has the size of the design variable of the inner loop", node=s, stmt="eye(size of the loop's design variable)")
+    names = tables[0].args[0]
+    ok = len({norm_stmt(t.args[0]) for t in tables}) == 1
+    _check_jacobian_frame(ctx, con, f, s, names if ok else loop.iter)
+    check_cursor_loops(ctx, "17.4-cursor", con, f, min_loops=1)
 
 
 def check_identity_block(ctx: Ctx) -> None:
@@ -149,6 +352,8 @@ def check_identity_block(ctx: Ctx) -> None:
     ok = isinstance(sl, ast.Tuple) and len(sl.elts) == 2 and all(isinstance(e, ast.Slice) for e in sl.elts)
     ctx.need(ok, "_jac_to_wrap: the identity block is not stored in a [rows, columns] window")
     loops = [cfg.ast[t] for (t, v), b in cfg.branch.items() if v and cfg.kind[t] == "loop" and cfg.dominates(b, cfg.node_of(s))]
+    if len(loops) == 1:
+        return _check_identity_block_by_lookup(ctx, con, f, s, loops[0])
     ctx.need(len(loops) == 2, "_jac_to_wrap: the two nested loops (outputs, design variables) were not found")
     outer = [l for l in loops if "__output_couplings" in norm_stmt(l.iter)]
     inner = [l for l in loops if l not in outer]
@@ -159,6 +364,7 @@ def check_identity_block(ctx: Ctx) -> None:
     if ok:
         cp = compare_parts(conds[0][0])
         ok = cp is not None and cp[1] is ast.Eq and {dotted(cp[0]), dotted(cp[2])} == {ov, iv}
+    same_name = bool(ok)
     ctx.ob("17.3-same-name", con, ok, "the identity block belongs to the design variable that has the same name as the output coupling", node=s)
     # rows from the outer cursor pair, columns from the inner one; size from the inner variable
     row_names = names_in(sl.elts[0])
@@ -173,39 +379,50 @@ def check_identity_block(ctx: Ctx) -> None:
         return None
 
     ctx.ob("17.3-window", con, cursor_owner(row_names) == "outer" and cursor_owner(col_names) == "inner", "rows of the block are the window of the output coupling (outer cursor), columns the window of the design variable (inner cursor)", node=s, stmt="rows <- output cursor, columns <- design-variable cursor")
-    size = s.value.args[0]
-    sdef = [x for x in ast.walk(inner[0]) if isinstance(x, ast.Assign) and dotted(x.targets[0]) == dotted(size)]
-    ok = len(sdef) == 1 and iv in names_in(sdef[0].value) and "__dv_len" in norm_stmt(sdef[0].value)
+    size = arg_or_kw(s.value, 0, "N") or arg_or_kw(s.value, 0, "n")
+    owners = [_dv_len_of(e) for e in _alts(f, size)] if size is not None else [None]
+    # under the same-name test the output coupling and the design variable are one variable: its size is the block's
+    ok = all(o is not None and (o == iv or (o == ov and same_name)) for o in owners)
     ctx.ob("17.3-window", con, ok, "the identity has the size of the design variable of the inner loop", node=s, stmt="eye(size of the loop's design variable)")
-    z = [x for x in stmts_of(f) if isinstance(x, ast.Assign) and isinstance(x.value, ast.Call) and last_attr(x.value) == "zeros" and dotted(x.targets[0]) == dotted(s.targets[0].value)]
-    ok = len(z) == 1 and isinstance(z[0].value.args[0], ast.Tuple) and norm_stmt(z[0].value.args[0].elts[1]) == f"len({f.args.args[1].arg})"
-    ctx.ob("17.3-window", con, ok, "the target Jacobian has one column per component of the design vector", node=(z or [f])[0], stmt="zeros((n_outs, len(x_vect)))")
-    xn = [x for x in stmts_of(f) if isinstance(x, ast.Assign) and dotted(x.targets[0]) == dotted(inner[0].iter)]
-    ok = len(xn) == 1 and last_attr(xn[0].value) == "get_optim_variable_names"
-    ctx.ob("17.3-window", con, ok, "columns follow the order of the optimisation variables of the design space", node=(xn or [f])[0], stmt="columns in design-space order")
+    _check_jacobian_frame(ctx, con, f, s, inner[0].iter)
     check_cursor_loops(ctx, "17.4-cursor", con, f, min_loops=2)
 
 
+def _window_lookups(f: ast.AST) -> list[ast.Assign]:
+    """``lo, hi, n = <table>[<name>]`` where the table is what ``self._get_dv_indices(...)`` returned."""
+    out = []
+    for s in stmts_of(f):
+        if isinstance(s, ast.Assign) and isinstance(s.targets[0], ast.Tuple) and len(s.targets[0].elts) == 3 and isinstance(s.value, ast.Subscript):
+            tables = _alts(f, s.value.value)
+            if all(isinstance(t, ast.Call) and norm_stmt(t.func) == "self._get_dv_indices" for t in tables):
+                out.append(s)
+    return out
+
+
 def check_masks(ctx: Ctx) -> None:
-    for m, n, force in (("get_x_mask_x_swap_order", 1, None), ("unmask_x_swap_order", 1, None), ("_get_dv_indices", 1, {"end"})):
+    # the cursors of _get_dv_indices bound no slice there: they are the names stored in the (start, end, size) windows
+    h = ctx.index.method(BF, "BaseFormulation", "_get_dv_indices")
+    stored = [s for s in stmts_of(h) if isinstance(s, ast.Assign) and isinstance(s.targets[0], ast.Subscript) and isinstance(s.value, ast.Tuple) and len(s.value.elts) == 3]
+    window_names = set().union(*(names_in(s.value) for s in stored)) or None
+    for m, n, force in (("get_x_mask_x_swap_order", 1, None), ("unmask_x_swap_order", 1, None), ("_get_dv_indices", 1, window_names)):
         f = ctx.index.method(BF, "BaseFormulation", m)
         check_cursor_loops(ctx, "17.4-cursor", cname(BF, "BaseFormulation", m), f, min_loops=n, force=force)
     f = ctx.index.method(BF, "BaseFormulation", "get_x_mask_x_swap_order")
     con = cname(BF, "BaseFormulation", "get_x_mask_x_swap_order")
-    unp = [s for s in stmts_of(f) if isinstance(s, ast.Assign) and isinstance(s.targets[0], ast.Tuple) and isinstance(s.value, ast.Subscript) and dotted(s.value.value) == "indices"]
+    unp = _window_lookups(f)
     loops = [s for s in stmts_of(f) if isinstance(s, ast.For) and dotted(s.iter) == "masking_data_names"]
     ok = len(unp) == 1 and len(loops) == 1 and dotted(unp[0].value.slice) == dotted(loops[0].target)
     ctx.ob("17.4-indices", con, ok, "the window of a masked variable is looked up by the name of the loop's own variable", node=(unp or [f])[0])
     st = [s for s in stmts_of(f) if isinstance(s, ast.Assign) and isinstance(s.targets[0], ast.Subscript) and dotted(s.targets[0].value) == "x_mask"]
-    ok = len(st) == 1 and unp and isinstance(st[0].value, ast.Call) and last_attr(st[0].value) == "arange" and [dotted(a) for a in st[0].value.args] == [dotted(e) for e in unp[0].targets[0].elts[:2]]
+    ok = len(st) == 1 and unp and isinstance(st[0].value, ast.Call) and last_attr(st[0].value) in ("arange", "range") and not st[0].value.keywords and [dotted(a) for a in st[0].value.args] == [dotted(e) for e in unp[0].targets[0].elts[:2]]
     ctx.ob("17.4-indices", con, ok, "the mask holds the positions [i_min, i_max) of the variable in the full vector", node=(st or [f])[0])
-    ind = [s for s in stmts_of(f) if isinstance(s, ast.Assign) and dotted(s.targets[0]) == "indices"]
-    ok = len(ind) == 1 and last_attr(ind[0].value) == "_get_dv_indices" and dotted(ind[0].value.args[0]) == "all_data_names"
-    ctx.ob("17.4-indices", con, ok, "positions are computed over all the data names, in their order", node=(ind or [f])[0])
+    tables = [c for c in walk_body(f) if isinstance(c, ast.Call) and norm_stmt(c.func) == "self._get_dv_indices"]
+    ok = bool(unp) and len(tables) == 1 and len(tables[0].args) == 1 and not tables[0].keywords and dotted(tables[0].args[0]) == "all_data_names"
+    ctx.ob("17.4-indices", con, ok, "positions are computed over all the data names, in their order", node=(unp or [f])[0], stmt="indices = self._get_dv_indices(all_data_names)")
     g = ctx.index.method(BF, "BaseFormulation", "unmask_x_swap_order")
     cong = cname(BF, "BaseFormulation", "unmask_x_swap_order")
     st = [s for s in stmts_of(g) if isinstance(s, ast.Assign) and isinstance(s.targets[0], ast.Subscript) and dotted(s.targets[0].value) == "x_unmask"]
-    unp = [s for s in stmts_of(g) if isinstance(s, ast.Assign) and isinstance(s.targets[0], ast.Tuple) and isinstance(s.value, ast.Subscript) and dotted(s.value.value) == "indices"]
+    unp = _window_lookups(g)
     ok = len(st) == 1 and len(unp) == 1
     if ok:
         i_min, i_max, n_x = (dotted(e) for e in unp[0].targets[0].elts)
@@ -331,10 +548,25 @@ WITNESSES = [
     {"name": "inner-start-only-on-match", "file": CC, "old": "                        x_jac_2d[o_min:o_max, i_min:i_max] = eye(x_len)\n                    i_min = i_max", "new": "                        x_jac_2d[o_min:o_max, i_min:i_max] = eye(x_len)\n                        i_min = i_max", "expect": "17.4"},
     {"name": "mask-cursor-not-advanced", "file": BF, "old": "                i_masked_max += loc_size\n", "new": "                i_masked_max += 1\n", "expect": "17.4"},
     {"name": "mask-window-start-not-moved", "file": BF, "old": "                x_mask[i_masked_min:i_masked_max] = arange(i_min, i_max)\n                i_masked_min = i_masked_max", "new": "                x_mask[i_masked_min:i_masked_max] = arange(i_min, i_max)", "expect": "17.4"},
-    {"name": "unmask-cursor-advanced-for-all", "file": BF, "old": "                    x_unmask[..., i_min:i_max] = x_masked[..., i_x : i_x + n_x]\n                    i_x += n_x", "new": "                    x_unmask[..., i_min:i_max] = x_masked[..., i_x : i_x + n_x]\n                i_x += 1", "expect": "17.4"},
+    {"name": "unmask-cursor-advanced-for-all", "file": BF, "old": "                x_unmask[..., i_min:i_max] = x_masked[..., i_x : i_x + n_x]\n                i_x += n_x", "new": "                x_unmask[..., i_min:i_max] = x_masked[..., i_x : i_x + n_x]\n                i_x += 1", "expect": "17.4"},
     {"name": "dv-indices-start-not-moved", "file": BF, "old": "            names_to_indices[name] = (start, end, size)\n            start = end", "new": "            names_to_indices[name] = (start, end, size)", "expect": "17.4"},
+    {"name": "idf-raises-when-nothing-is-missing", "file": IDF, "old": "        if not strong_couplings.issubset(variable_names):\n            missing = strong_couplings.difference(variable_names)\n", "new": "        missing = strong_couplings.difference(variable_names)\n        if not missing:\n", "expect": "17.1"},
+    {"name": "mdf-skips-the-present-couplings", "file": MDF, "old": "            if coupling in design_space:\n                design_space.remove_variable(coupling)", "new": "            if coupling in design_space:\n                continue\n            design_space.remove_variable(coupling)", "expect": "17.1"},
+    {"name": "jacobian-factor-as-a-row", "file": CC, "old": "self.__norm_fact[:, newaxis]", "new": "self.__norm_fact[None, :]", "expect": "17.2"},
+    {"name": "value-single-return-reversed", "file": CC, "old": "        if self.__formulation.normalize_constraints:\n            return (coupl - x_sw) / self.__norm_fact\n        return coupl - x_sw", "new": "        res = x_sw - coupl\n        if self.__formulation.normalize_constraints:\n            res = res / self.__norm_fact\n        return res", "expect": "17.2"},
+    {"name": "target-masked-among-the-outputs-only", "file": CC, "old": "x_sw = self.__formulation.mask_x_swap_order(self.__output_couplings, x_vect)", "new": "x_sw = x_vect[self.__formulation.get_x_mask_x_swap_order(self.__output_couplings, self.__output_couplings)]", "expect": "17.2"},
+    {"name": "identity-sized-by-the-output-for-other-variables", "file": CC, "old": "                    if x_i == out:\n                        x_jac_2d[o_min:o_max, i_min:i_max] = eye(x_len)", "new": "                    if x_i != out:\n                        x_jac_2d[o_min:o_max, i_min:i_max] = eye(o_len)", "expect": "17.3"},
+    {"name": "jacobian-frame-square", "file": CC, "old": "zeros((n_outs, len(x_vect))", "new": "zeros((n_outs, n_outs)", "expect": "17.3"},
+    {"name": "columns-in-sorted-order", "file": CC, "old": "x_names = self.__formulation.get_optim_variable_names()", "new": "x_names = sorted(self.__formulation.design_space.variable_names)", "expect": "17.3"},
+    {"name": "mask-positions-one-too-many", "file": BF, "old": "arange(i_min, i_max)", "new": "range(i_min, i_max + 1)", "expect": "17.4"},
     {"name": "mask-positions-of-other-variable", "file": BF, "old": "                i_min, i_max, loc_size = indices[key]", "new": "                i_min, i_max, loc_size = indices[all_data_names[0]]", "expect": "17.4"},
 ]
 TWINS = [
     {"name": "same-name-test-mirrored", "file": CC, "old": "                    if x_i == out:", "new": "                    if out == x_i:"},
+    {"name": "mdf-skips-the-absent-couplings", "file": MDF, "old": "            if coupling in design_space:\n                design_space.remove_variable(coupling)", "new": "            if coupling not in design_space:\n                continue\n            design_space.remove_variable(coupling)"},
+    {"name": "idf-tests-the-missing-couplings", "file": IDF, "old": "        if not strong_couplings.issubset(variable_names):\n            missing = strong_couplings.difference(variable_names)\n", "new": "        missing = strong_couplings.difference(variable_names)\n        if missing:\n"},
+    {"name": "value-single-return", "file": CC, "old": "        if self.__formulation.normalize_constraints:\n            return (coupl - x_sw) / self.__norm_fact\n        return coupl - x_sw", "new": "        res = coupl - x_sw\n        if self.__formulation.normalize_constraints:\n            res = res / self.__norm_fact\n        return res"},
+    {"name": "jacobian-factor-column-by-none", "file": CC, "old": "self.__norm_fact[:, newaxis]", "new": "self.__norm_fact[:, None]"},
+    {"name": "identity-sized-by-the-output", "file": CC, "old": "eye(x_len)", "new": "eye(o_len)"},
+    {"name": "dv-indices-single-cursor", "file": BF, "old": "        start = end = 0\n        sizes = self.variable_sizes\n        names_to_indices = {}\n        for name in names:\n            size = sizes[name]\n            end += size\n            names_to_indices[name] = (start, end, size)\n            start = end\n", "new": "        start = 0\n        sizes = self.variable_sizes\n        names_to_indices = {}\n        for name in names:\n            size = sizes[name]\n            names_to_indices[name] = (start, start + size, size)\n            start += size\n"},
 ]
